@@ -305,7 +305,7 @@ def r1(ctx):
 def r2(ctx):
     facts = ctx.facts
     rule = Rule("C04.R2", "queued requests are released: on every path of new_session, after a consumed challenge, on "
-                "challenge expiry; writers of pending_requests are three functions; a request is queued only while a release is bound to come", floor=7, engine="A-dom + A-who")
+                "challenge expiry; writers of pending_requests are three functions; a request is queued only while a release is bound to come", floor=9, engine="A-dom + A-who")
     ns = body_of(facts, H + "new_session")
     rule.analysed(ns)
     spr = [bi for bi, t in ns.calls() if (t.callee() or "") == H + "send_pending_requests"]
@@ -427,6 +427,20 @@ def r2(ctx):
                "is_awaiting_session_to_be_established can return true only past `no session stored for the address`", "awaiting|session-exists",
                "is_awaiting_session_to_be_established can return true although a session exists for the address: send_request then queues the request, and with the "
                "session already established nothing (no handshake, no challenge expiry) will ever release or fail it", loc=aw.loc(aw.line))
+    # (f) the release that (e) relies on: when a request fails - in particular the session-initiating one timing out - the requests queued
+    # behind it are failed with it: fail_request reaches fail_session on every path, and fail_session empties pending_requests for that address
+    fr = body_of(facts, H + "fail_request")
+    rule.analysed(fr)
+    fs_calls = [bi for bi, t in fr.calls() if (t.callee() or "") == H + "fail_session"]
+    rule.check(bool(fs_calls) and must_pass(fr, fr.return_blocks(), via_blocks=fs_calls), "fail_request fails the whole session's queue on every path (fail_session)", "fail_request|queue-not-failed",
+               "fail_request can return without fail_session: requests queued behind the failed one (pending_requests has no timer of its own) are never sent nor failed",
+               loc=fr.loc(fr.line))
+    fsb = body_of(facts, H + "fail_session")
+    rule.analysed(fsb)
+    pfs = Prov(fsb, facts)
+    rem = [bi for bi, t in fsb.calls() if callee_matches(t, r"HashMap::<.*>::remove$", r"HashMap::remove$") and fmt_short(pfs.operand(t.args[0])) == "self.pending_requests"]
+    rule.check(bool(rem) and must_pass(fsb, fsb.return_blocks(), via_blocks=rem), "fail_session takes the address's queue out of pending_requests on every path", "fail_session|queue-kept",
+               "fail_session can return without removing the address's entry from pending_requests", loc=fsb.loc(fsb.line))
     ini = [bi for bi, t in aw.calls() if callee_matches(t, r"Iterator>::any$")]
     clos = [cb for pth, cb in facts.bodies.items() if pth.startswith(aw.path + "::{closure#")]
     by_flag = any(any(callee_matches(t, r"RequestCall::initiating_session$") for _, t in cb.calls()) for cb in clos)
